@@ -5,9 +5,11 @@ import (
 	"go/ast"
 	"go/token"
 	"go/types"
+	"sort"
 	"strings"
 
 	"mlverif/core"
+	"mlverif/gea"
 )
 
 func init() {
@@ -28,35 +30,62 @@ func init() {
 			primary bool
 		}{{"Memberlist.sendMsg", true}, {"Memberlist.gossip", false}} {
 			fn := c.MustFunc(site.fn)
-			co, k, cond, ok := budgetOf(c, fn)
-			if !ok {
-				c.Check("C11/budget/"+site.fn, rule, fn.Decl.Pos(), false, "budget expression not found / not linear")
-				continue
-			}
+			// the space offered to the queues = the value handed to getBroadcasts as its limit,
+			// read per path from the exploration (so the arithmetic may be spread over
+			// statements, locals or a helper)
+			x := c.flow(fn, map[string]string{})
 			need := hdr + crc
 			if site.primary {
 				need += perPart
 			}
-			why := ""
-			good := true
-			if co["m.config.UDPBufferSize"] != 1 {
-				good, why = false, "budget does not start from UDPBufferSize"
+			nb := 0
+			for _, e := range x.Effects {
+				if e.Class != "CALL:Memberlist.getBroadcasts" {
+					continue
+				}
+				nb++
+				lim := norm(e.Detail["arg1"])
+				co, k, ok := linearName(lim)
+				why := ""
+				good := true
+				if !ok {
+					good, why = false, "budget "+lim+" is not a sum/difference of named terms"
+				}
+				if good && co["m.config.UDPBufferSize"] != 1 {
+					good, why = false, "budget does not start from UDPBufferSize"
+				}
+				if good && site.primary && co["len(msg)"] != -1 {
+					good, why = false, "the primary message's length is not subtracted"
+				}
+				if good && co["labelOverhead(m.config.Label)"] != -1 {
+					good, why = false, "label overhead not subtracted"
+				}
+				if good && -k < need {
+					good = false
+					why = fmt.Sprintf("constant part of the budget is %d, but the fixed layers need %d (compound header %d%s + checksum header %d): packets can exceed the configured size by %d bytes", -k, need, hdr,
+						map[bool]string{true: fmt.Sprintf(" + length entry of the primary message %d", perPart), false: ""}[site.primary], crc, need+k)
+				}
+				encTerm := int64(0)
+				for t, cf := range co {
+					switch {
+					case strings.HasPrefix(t, "encryptOverhead("):
+						encTerm += cf
+					case t == "m.config.UDPBufferSize" || t == "len(msg)" || t == "labelOverhead(m.config.Label)":
+					default:
+						if good && cf > 0 {
+							good, why = false, "the budget is enlarged by "+t
+						}
+					}
+				}
+				// when the raw sender will encrypt (keyring present and outgoing verification on),
+				// the encryption overhead is subtracted
+				mayEncrypt := e.Cube["encOn"] != "F" && e.Cube["m.config.GossipVerifyOutgoing"] != "F"
+				if good && mayEncrypt && encTerm != -1 {
+					good, why = false, "encryption overhead is not subtracted on a path where the sender encrypts {"+gea.CubeString(e.Cube)+"}"
+				}
+				c.Check("C11/budget/"+site.fn, rule, e.Pos, good, why)
 			}
-			if site.primary && co["len(msg)"] != -1 {
-				good, why = false, "the primary message's length is not subtracted"
-			}
-			if co["labelOverhead(m.config.Label)"] != -1 {
-				good, why = false, "label overhead not subtracted"
-			}
-			if -k < need {
-				good = false
-				why = fmt.Sprintf("constant part of the budget is %d, but the fixed layers need %d (compound header %d%s + checksum header %d): packets can exceed the configured size by %d bytes", -k, need, hdr,
-					map[bool]string{true: fmt.Sprintf(" + length entry of the primary message %d", perPart), false: ""}[site.primary], crc, need+k)
-			}
-			if !cond.enc {
-				good, why = false, "encryption overhead is not subtracted when the sender encrypts"
-			}
-			c.Check("C11/budget/"+site.fn, rule, fn.Decl.Pos(), good, why)
+			c.Floor("budget hand-overs to getBroadcasts in "+site.fn, nb, 1)
 		}
 		// the raw sender encrypts exactly under the condition the budget assumed (or a weaker budget condition)
 		// and compression only replaces the payload when strictly shorter
@@ -343,40 +372,94 @@ func checkAccounting(c *Ctx) {
 		fn := c.MustFunc(name)
 		inspectFn(fn, func(nd ast.Node) bool {
 			as, ok := nd.(*ast.AssignStmt)
-			if !ok || as.Tok != token.ADD_ASSIGN || len(as.Lhs) != 1 {
+			if !ok || (as.Tok != token.ADD_ASSIGN && as.Tok != token.SUB_ASSIGN) || len(as.Lhs) != 1 {
 				return true
 			}
-			id, ok := as.Lhs[0].(*ast.Ident)
-			if !ok || !strings.Contains(strings.ToLower(id.Name), "used") {
+			// a running byte count (up or down): an integer variable adjusted by an amount that involves a message length
+			if !isIntegerT(p.TypeOf(as.Lhs[0])) || !strings.Contains(norm(p.Canon(as.Rhs[0])), "len(") {
 				return true
 			}
 			n++
 			co, k, okL := linear(p, as.Rhs[0], func(e ast.Expr) string { return norm(p.Canon(e)) })
-			good := okL && k == 0 && co["overhead"] == 1 && co["len(msg)"] == 1 && len(nonzero(co)) == 2
-			c.Check("C11/accounting/"+name, rule, as.Pos(), good, "bytes used += "+norm(p.Canon(as.Rhs[0]))+" (must be len(msg) + overhead)")
+			nlen := 0
+			good := okL && k == 0 && co["overhead"] == 1
+			for t, cf := range co {
+				switch {
+				case t == "overhead":
+				case strings.HasPrefix(t, "len(") && cf == 1:
+					nlen++
+				case cf != 0:
+					good = false
+				}
+			}
+			good = good && nlen == 1
+			c.Check("C11/accounting/"+name, rule, as.Pos(), good, "running byte count adjusted by "+norm(p.Canon(as.Rhs[0]))+" (must be the message's length + overhead)")
 			return true
 		})
 	}
 	c.Floor("byte accounting updates", n, 2)
-	// the delegate is offered what is left, with the user-message framing byte added to the overhead
+	// the delegate is offered what is left, with the user-message framing byte added to the
+	// overhead: read from the values the exploration hands to Delegate.GetBroadcasts - with no
+	// message taken the whole limit, with one taken limit - (len + overhead), and in general
+	// (induction over the loop, the accumulator's own name standing for its previous value)
+	// limit - (X + len + overhead) for a count X of bytes used, or X - (len + overhead) for
+	// a remainder X
 	gb := c.MustFunc("Memberlist.getBroadcasts")
-	okAvail, okDel, okFrame := false, false, false
-	inspectFn(gb, func(nd ast.Node) bool {
-		switch v := nd.(type) {
-		case *ast.AssignStmt:
-			if len(v.Rhs) == 1 && norm(p.Canon(v.Rhs[0])) == "(limit-bytesUsed)" {
-				okAvail = true
+	xg := c.flow(gb, map[string]string{})
+	nd := 0
+	for _, e := range xg.Effects {
+		if e.Class != "DELEGATE:GetBroadcasts" {
+			continue
+		}
+		nd++
+		a0, a1 := norm(e.Detail["arg0"]), norm(e.Detail["arg1"])
+		good, why := true, ""
+		if a0 != "(overhead+1)" && a0 != "(1+overhead)" {
+			good, why = false, "the delegate's per-message overhead is "+a0+", not overhead + the user-message framing byte"
+		}
+		co, k, ok := linearName(a1)
+		if good && (!ok || k != 0) {
+			good, why = false, "space offered to the delegate "+a1+" is not limit minus the bytes already used"
+		}
+		if good {
+			nlen, other := int64(0), []string{}
+			for t, cf := range co {
+				switch {
+				case cf == 0, t == "overhead", t == "limit":
+				case strings.HasPrefix(t, "len(") && cf == -1:
+					nlen++
+				default:
+					other = append(other, fmt.Sprintf("%+d*%s", cf, t))
+				}
 			}
-		case *ast.CallExpr:
-			if f := p.Callee(v); f != nil && core.FuncFullName(f) == core.RootPath+".Delegate.GetBroadcasts" && len(v.Args) == 2 {
-				a0 := norm(p.Canon(v.Args[0]))
-				okDel = (a0 == "(overhead+userMsgOverhead)" || a0 == "(overhead+1)") && norm(p.Canon(v.Args[1])) == "avail"
+			sort.Strings(other)
+			okShape := co["overhead"] == -nlen
+			switch {
+			case co["limit"] == 1 && len(other) == 0:
+			case co["limit"] == 1 && len(other) == 1 && strings.HasPrefix(other[0], "-1*") && isLocalName(other[0][3:]) && nlen >= 1:
+			case co["limit"] == 0 && len(other) == 1 && strings.HasPrefix(other[0], "+1*") && isLocalName(other[0][3:]) && nlen >= 1:
+			default:
+				okShape = false
 			}
-			if p.Builtin(v) == "make" && len(v.Args) == 3 && norm(p.Canon(v.Args[2])) == "(len(msg)+1)" {
-				okFrame = true
+			if !okShape {
+				good, why = false, "space offered to the delegate "+a1+" is not limit minus (length + overhead) of every message already taken"
 			}
 		}
-		return true
-	})
-	c.Check("C11/accounting/delegate-space", rule, gb.Decl.Pos(), okAvail && okDel && okFrame, fmt.Sprintf("avail=limit-used:%v delegate(overhead+frame, avail):%v frame byte:%v", okAvail, okDel, okFrame))
+		c.Check("C11/accounting/delegate-space", rule, e.Pos, good, why)
+	}
+	c.Floor("delegate broadcast requests", nd, 1)
+}
+
+// isLocalName: a plain variable name (after norm), standing for the previous
+// value of a loop accumulator.
+func isLocalName(s string) bool {
+	if s == "" {
+		return false
+	}
+	for i, r := range s {
+		if !(r == '_' || (r >= 'a' && r <= 'z') || (r >= 'A' && r <= 'Z') || (i > 0 && r >= '0' && r <= '9')) {
+			return false
+		}
+	}
+	return true
 }
